@@ -83,7 +83,30 @@ def build_instrumenter():
 
 
 def prepare(selfcheck=False):
-    """Returns the directory holding worker.test, updog and sites.json for the current tree."""
+    """Returns the directory holding worker.test, updog and sites.json for the current tree. A tree (repository,
+    harness, runtime) that changes while it is being built is built again: nothing is cached under a key it does
+    not match, and a build that failed on a moving tree is no verdict about anything."""
+    last = None
+    for attempt in range(4):
+        key0 = tree_hash()
+        try:
+            dst = prepare_once(selfcheck)
+        except RuntimeError as e:
+            if tree_hash() != key0 or getattr(e, "moved", False):
+                last = e
+                log("prepare: the tree changed during the build, building again")
+                time.sleep(2)
+                continue
+            raise
+        return dst
+    raise last
+
+
+class TreeMoved(RuntimeError):
+    moved = True
+
+
+def prepare_once(selfcheck=False):
     os.makedirs(os.path.join(BUILD, "cache"), exist_ok=True)
     lock = open(os.path.join(BUILD, "lock"), "w")
     fcntl.flock(lock, fcntl.LOCK_EX)
@@ -105,7 +128,14 @@ def prepare(selfcheck=False):
             run([GO, "build", "-o", os.path.join(tmpdst, "updog"), "./cmd/updog"], cwd=sc)
             run([GO, "mod", "edit", "-require", "verif/simrt@v0.0.0", "-replace", "verif/simrt=" + os.path.join(VERIF, "simrt"),
                  "-require", "github.com/anishathalye/porcupine@v1.3.0"], cwd=sc)
-            out = run([inst, "-root", sc, "-sites", os.path.join(tmpdst, "sites.json")], cwd=sc)
+            # bbolt's own locks are made to cooperate with the scheduler, too (locks only, no yields): a copy of
+            # the module the repository pins, below the scratch tree
+            bdir_ = run([GO, "list", "-m", "-f", "{{.Dir}}", "go.etcd.io/bbolt"], cwd=sc).strip().splitlines()[-1]
+            dep = os.path.join(sc, "_deps", "bbolt")
+            os.makedirs(os.path.dirname(dep), exist_ok=True)
+            run(["rsync", "-a", "--chmod=u+w", bdir_ + "/", dep + "/"])
+            run([GO, "mod", "edit", "-replace", "go.etcd.io/bbolt=./_deps/bbolt"], cwd=sc)
+            out = run([inst, "-root", sc, "-sites", os.path.join(tmpdst, "sites.json"), "-deps", "go.etcd.io/bbolt"], cwd=sc)
             log(out.strip())
             if selfcheck:
                 # the repository's own tests must pass on the instrumented copy with the simulator inactive
@@ -123,6 +153,9 @@ def prepare(selfcheck=False):
             for f in glob.glob(os.path.join(VERIF, "harness", "shim", "*.go")):
                 shutil.copy(f, os.path.join(sc, "verifcli"))
             run([GO, "test", "-race", "-c", "-o", os.path.join(tmpdst, "worker.test"), "./verifsim"], cwd=sc)
+            if tree_hash() != key:
+                shutil.rmtree(tmpdst, ignore_errors=True)
+                raise TreeMoved("tree changed during the build")
             open(os.path.join(tmpdst, "ok"), "w").write(str(time.time()))
             shutil.rmtree(dst, ignore_errors=True)
             os.rename(tmpdst, dst)
@@ -253,7 +286,26 @@ def run_case(bdir, case, outdir, tag, runwall=180):
     if rc == 12 or prog.startswith("WALL-WATCHDOG") or "synctest channel" in out or "outside bubble" in out or "synctest:" in out:
         # a fatal error of testing/synctest is about how the harness uses objects across bubbles, never about the code under test
         return {"class": "harness", "detail": "exit %d %s %s" % (rc, prog[:2000], out[-2000:])}
+    if not death_in_code_under_test(out):
+        # the goroutine that brought the process down has no frame of the code under test: the harness's own bug
+        return {"class": "harness", "detail": "worker died (exit %d) in harness code:\n%s" % (rc, out[-3000:])}
     return {"class": "violation", "sig": "process-death", "detail": "the worker process died (exit %d) while running this case:\n%s" % (rc, out[-3000:])}
+
+
+UNDER_TEST = re.compile(r"^(github\.com/akrennmair/updog(/driver|/internal/[a-z]+|/cmd/[a-z]+|/verifcli)?\.|go\.etcd\.io/bbolt\.)", re.M)
+
+
+def death_in_code_under_test(out):
+    """True unless the output shows a Go panic / fatal error whose first goroutine block (the one that died) has
+    no frame of the code under test. Deaths without a Go trace (signals, OOM) stay attributed to the case."""
+    m = re.search(r"^(panic: |fatal error: )", out, re.M)
+    if not m:
+        return True
+    rest = out[m.start():]
+    g = re.search(r"^goroutine \d+ .*?(?=^\s*$)", rest, re.M | re.S)
+    if not g:
+        return True
+    return bool(UNDER_TEST.search(g.group(0)))
 
 
 # ----------------------------------------------------------------------------- shrinking
